@@ -26,6 +26,7 @@ import (
 	"github.com/cornelk/hashmap"
 	"github.com/pkg/errors"
 
+	"rcproxy/core/pkg/constant"
 	"rcproxy/core/pkg/logging"
 	"rcproxy/core/pkg/redis"
 )
@@ -368,14 +369,14 @@ func (c *ClusterNode) parseSlot(slotsStr string) (int32, int32, error) {
 	var start, end int64
 	slots := strings.Split(slotsStr, "-")
 	start, err = strconv.ParseInt(slots[0], 10, 32)
-	if err != nil {
+	if err != nil || start < 0 || start >= constant.RedisClusterSlots {
 		return -1, -1, errors.New("slot parse failed")
 	}
 	if len(slots) <= 1 {
 		return int32(start), int32(start), nil
 	}
 	end, err = strconv.ParseInt(slots[1], 10, 32)
-	if err != nil {
+	if err != nil || end < 0 || end >= constant.RedisClusterSlots {
 		return -1, -1, errors.New("slot parse failed")
 	}
 	return int32(start), int32(end), nil
